@@ -128,6 +128,16 @@ def gen_cases(tier, seed, gen, effort):
         rnd3 = random.Random(seed * 4099 + s * 17 + 5)
         for p in rnd3.sample(perms, min(len(perms), 6 if not thorough else 12)):
             cases.append(dict({"set": s, "docs": docs, "perm": list(p), "path": rnd3.choice(["errmerge", "errmerge", "errfiles"])}, **gen_err(rnd3, docs, list(p))))
+    # the smallest rule sets (fixed): one correlation rule alone whose reference is missing, one rule alone, a pair (cyclic references are outside the property: not generated)
+    def corr(name, refs, **kw):
+        return {"title": name, "name": name, "correlation": dict({"type": "event_count", "rules": refs, "group-by": ["f"], "timespan": "5m", "condition": {"gte": 2}}, **kw)}
+    plain = {"title": "r0", "name": "rule0", "logsource": {"category": "c"}, "detection": {"sel": {"f": "v0"}, "condition": "sel"}}
+    tiny = [[corr("corr0", ["nope_missing"])], [plain], [corr("corr0", ["rule0"]), plain], [corr("corr0", ["rule0", "nope_missing"]), plain],
+            [corr("corr0", ["rule0"], generate=True)]]
+    for k, docs in enumerate(tiny):
+        for p in itertools.permutations(range(len(docs))):
+            for path in PATHS:
+                cases.append({"set": nsets + k, "docs": docs, "perm": list(p), "path": path})
     return cases, False
 
 
